@@ -84,6 +84,13 @@ def renumber(ops, keep):
     return out
 
 
+def to_placeholder(line):
+    f = line.split("\t")
+    if f[0] in ("new", "bld", "obs", "mod", "jn", "rt", "hr", "q", "uq") and len(f) > 1 and f[1] in ("py", "c"):
+        f[1] = "B"
+    return "\t".join(f)
+
+
 def describe_ops(lines):
     return [props.pretty(l) for l in lines]
 
@@ -296,6 +303,18 @@ def decide(prop, scratch, tier, seed, t0):
     if unlisted:
         f = unlisted[0]
         payload = make_replay(pid, f, "direct oracle on the implementation", tie_broken)
+        if payload.get("ops"):
+            try:
+                small, runs = shrink(prop, scratch, [to_placeholder(o) for o in payload["ops"]], f.get("backend"), f.get("class"))
+                if runs:
+                    payload["shrink_runs"] = runs
+                    if small != [to_placeholder(o) for o in payload["ops"]]:
+                        payload["ops_unshrunk_pretty"] = payload.get("ops_pretty")
+                        payload["ops"] = small
+                        payload["ops_pretty"] = describe_ops(small)
+                        payload["what_unshrunk"] = payload["what"]
+            except Exception as ex:  # shrinking is best effort
+                payload["shrink_error"] = repr(ex)
         path = core.write_replay(pid, payload)
         print(f"VIOLATION property={pid} replay={path}")
         violations = len(unlisted)
@@ -351,6 +370,60 @@ def decide(prop, scratch, tier, seed, t0):
     return rc
 
 
+STR_FIELDS = {"new": [3], "q": [3], "uq": [3], "su": [1], "sn": [1], "np": [1], "pq": [1], "eh": [1], "hq": [1]}
+
+
+def shrink(prop, scratch, ops, backend, cls, budget=70):
+    """delta-debug the string arguments of a failing op chain: delete code points while the direct oracle still
+    reports a failure of the same class on the real code.  Returns the (possibly) smaller chain."""
+    if not prop.oracle or backend not in ("py", "c") or cls in ("backend-mismatch",):
+        return ops, 0
+
+    def still_fails(cand):
+        b_ops = [o.replace("\tB\t", f"\t{backend}\t") for o in cand]
+        io, err = core.run_impl(scratch, b_ops, backend, timeout=120)
+        if io is None:
+            return cls == "crash"
+        try:
+            return any(f.get("class") == cls for f in prop.oracle(b_ops, io, backend))
+        except Exception:
+            return False
+
+    runs = 0
+    cur = list(ops)
+    improved = True
+    while improved and runs < budget:
+        improved = False
+        for i, line in enumerate(cur):
+            f = line.split("\t")
+            idxs = STR_FIELDS.get(f[0], [])
+            if f[0] == "mod":
+                idxs = [k for k in range(4, len(f)) if f[k] and all(ch in "0123456789abcdef." for ch in f[k])]
+            for k in idxs:
+                if k >= len(f) or not f[k] or f[k] == "~":
+                    continue
+                cps = f[k].split(".")
+                if len(cps) > 60:
+                    chunks = [(a, min(len(cps), a + max(1, len(cps) // 8))) for a in range(0, len(cps), max(1, len(cps) // 8))]
+                else:
+                    chunks = [(a, a + 1) for a in range(len(cps))]
+                for a, b_ in chunks:
+                    if runs >= budget:
+                        break
+                    cand_cps = cps[:a] + cps[b_:]
+                    g = list(f)
+                    g[k] = ".".join(cand_cps)
+                    cand = cur[:i] + ["\t".join(g)] + cur[i + 1:]
+                    runs += 1
+                    if still_fails(cand):
+                        cur = cand
+                        f = g
+                        cps = cand_cps
+                        improved = True
+                        break
+    return cur, runs
+
+
 def make_replay(pid, f, how, tie_broken):
     payload = {"property": pid, "kind": "failing-input", "found_by": how, "what": f["what"], "class": f.get("class"),
                "backend": f.get("backend"), "stream": f.get("stream"), "tie_broken": tie_broken}
@@ -358,7 +431,7 @@ def make_replay(pid, f, how, tie_broken):
         keep = chain_for(f["full"], f["n"])
         for extra_n in f.get("also", []):
             keep = sorted(set(keep) | set(chain_for(f["full"], extra_n)))
-        payload["ops"] = renumber(f["full"], keep)
+        payload["ops"] = [to_placeholder(o) for o in renumber(f["full"], keep)]
         payload["ops_pretty"] = describe_ops(payload["ops"])
     for k in ("input", "detail", "program"):
         if k in f:
